@@ -41,6 +41,12 @@ BoundaryLens == {1, 2, 3, 15, 16, 17, 127, 128, 129, 130, 240, 241, 242, 255, 25
 HugeLens == {65535, 65536, 65537}
 GroupLens == {1, 2, 3, 4, 5, 8, 9, 32, 33, 63, 64}
 SamplerLens == {9999, 10000, 10001, 20001}          \* adaptive: exact vs sampled uniqueness
+\* adaptive: encodings larger than 2^20 bytes (the decoder is not told the input length): 120 000 distinct
+\* 9-byte values under the forced dictionary encoding (1.44 MB); in the thorough tier also an automatically
+\* selected dictionary of 700 000 values (1.4 MB)
+MegaScenarios == {<<<<"adaptive", 3>>, 120000, <<"nine", 0>>>>}
+                 \cup (IF Thorough THEN {<<<<"adaptive", -1>>, 700000, <<"fewuniq", 300>>>>,
+                                          <<<<"adaptive", 5>>, 120000, <<"nine", 0>>>>} ELSE {})
 Lens(c) == IF c[1] = "group" THEN GroupLens
            ELSE BoundaryLens \cup (IF Thorough THEN HugeLens ELSE {})
                 \cup (IF c[1] = "adaptive" THEN SamplerLens ELSE {})
@@ -116,10 +122,15 @@ PickShape == /\ stage = 2 /\ stage' = 3
              /\ shape' \in {s \in AllShapes : Applicable(codec, len, s)}
              /\ PrintT(<<"SCEN", codec[1], codec[2], len, shape'[1], shape'[2], P(shape', 2), P(shape', 3), P(shape', 4)>>)
              /\ UNCHANGED <<codec, len>>
-Next == PickCodec \/ PickLen \/ PickShape
+PickMega == /\ stage = 0 /\ Purpose = "c06" /\ stage' = 3
+            /\ \E m \in MegaScenarios :
+                 /\ codec' = m[1] /\ len' = m[2] /\ shape' = m[3]
+                 /\ PrintT(<<"SCEN", m[1][1], m[1][2], m[2], m[3][1], m[3][2], 0, 0, 0>>)
+Next == PickCodec \/ PickLen \/ PickShape \/ PickMega
 Spec == Init /\ [][Next]_vars
 
 \* every leaf is a well-formed scenario
 TypeOK == /\ stage \in 0..3
-          /\ stage = 3 => (codec \in Codecs /\ len \in Lens(codec) /\ Applicable(codec, len, shape))
+          /\ stage = 3 => ((codec \in Codecs /\ len \in Lens(codec) /\ Applicable(codec, len, shape))
+                            \/ <<codec, len, shape>> \in MegaScenarios)
 =============================================================================
